@@ -344,7 +344,7 @@ pub fn import_projects() -> Vec<Vec<(String, String)>> {
 /// Fragments the root (files[0]) imports, transitively: for every import line of every reached file the
 /// named (or all) fragments of the file its path leads to from the importing file's directory.
 /// None when a line names a missing file or fragment (not an accepted project).
-fn ref_import_closure(files: &[(String, String)]) -> Option<Vec<ExecDef>> {
+pub fn ref_import_closure(files: &[(String, String)]) -> Option<Vec<ExecDef>> {
     let docs: Vec<ExecDoc> = files.iter().map(|f| crate::rparse::parse_exec(&f.1).ok()).collect::<Option<_>>()?;
     let mut out: Vec<ExecDef> = vec![];
     let mut taken: BTreeSet<(usize, String)> = BTreeSet::new();
